@@ -20,8 +20,21 @@ try:
     has_scm = os.path.exists(os.path.join(src, "demo.scm"))
     has_rs = os.path.exists(os.path.join(src, "demo_test.rs"))
 
+    has_sh = os.path.exists(os.path.join(src, "demo.sh"))
+
     def run_demo():
         """returns (passed, detail)"""
+        if has_sh:
+            # a shell demonstration that locates the worktree root relative to itself (MUT/<name>/demo.sh) and uses target/debug
+            d = os.path.join(wt, "MUT", name)
+            os.makedirs(d, exist_ok=True)
+            for f in ("demo.sh", "expected.txt"):
+                if os.path.exists(os.path.join(src, f)):
+                    shutil.copy(os.path.join(src, f), os.path.join(d, f))
+            e2 = dict(env); e2.pop("CARGO_TARGET_DIR", None)
+            r = subprocess.run("sh MUT/%s/demo.sh" % name, shell=True, cwd=wt, env=e2, stdout=subprocess.PIPE, stderr=subprocess.STDOUT, text=True, timeout=900)
+            shutil.rmtree(os.path.join(wt, "MUT"), ignore_errors=True)
+            return r.returncode == 0, r.stdout[-500:]
         if has_rs:
             shutil.copy(os.path.join(src, "demo_test.rs"), os.path.join(wt, "tests", "demo_test.rs"))
             r = sh("cargo test --offline --test demo_test 2>&1 | tail -15")
@@ -57,7 +70,7 @@ try:
         out = "/verif/seeded/%s-%s" % (prop, name)
         os.makedirs(out, exist_ok=True)
         open(os.path.join(out, "patch.diff"), "w").write(diff)
-        for f in ("demo.scm", "expected.txt", "demo_test.rs", "notes.md"):
+        for f in ("demo.scm", "expected.txt", "demo_test.rs", "demo.sh", "notes.md"):
             if os.path.exists(os.path.join(src, f)):
                 shutil.copy(os.path.join(src, f), os.path.join(out, f))
         meta = {"breaks_property": prop, "name": name, "origin": "independent sub-agent given only the property text and a scratch worktree",
